@@ -1,4 +1,5 @@
 import FsDb.Proofs.StepRollback
+import FsDb.Model.SysSteps
 /-! Physical deletion (`deleteFiles`, `drain`) is invisible: it preserves `Inv` and `R`. -/
 namespace FsDb
 open Sys Spec
@@ -14,11 +15,6 @@ theorem R.transfer {c c' : Sys} {s : State} (h : R c s) (i' : Inv c')
   · intro k; rw [h4, h3]; exact h.hist k
   · intro k hne; rw [h2]; exact h.histDom k hne
 
-/-- one `deleteFile` -/
-def delOne (s : Sys) (v : Ver) : Sys :=
-  match s.hasContent v.cid with
-  | none => s
-  | some _ => { s with cfs := s.cfs.filter (·.1 ≠ v.cid), recs := s.recs.filter (·.cid ≠ v.cid) }
 
 theorem deleteFiles_eq (s : Sys) (vs : List Ver) : s.deleteFiles vs = vs.foldl delOne s := rfl
 
